@@ -44,6 +44,10 @@ pub struct RunStats {
     pub switches_inside_op: u64,
     #[serde(default)]
     pub switches_at_alloc: u64,
+    #[serde(default)]
+    pub fn_seams: u64,
+    #[serde(default)]
+    pub switches_at_fn_entry: u64,
     pub sink_error_fired: u64,
     pub sink_panic_fired: u64,
     pub nested_fired: u64,
@@ -101,6 +105,11 @@ unsafe impl GlobalAlloc for SeamAlloc {
 
 #[inline]
 fn alloc_seam() {
+    seam_from_library(1)
+}
+
+/// kind: 1 = allocation, 2 = function entry
+fn seam_from_library(kind: u8) {
     // `try_with`: the allocator also runs while thread-locals are torn down
     let _ = ALLOC_SEAM.try_with(|c| {
         let (sched, me) = c.get();
@@ -108,10 +117,20 @@ fn alloc_seam() {
             // SAFETY: the pointer is set by `run_op` from an `Arc<Sched>` that
             // outlives the operation and is cleared before `run_op` returns
             #[allow(unsafe_code)]
-            unsafe { &*sched }.seam_kind(me, true, true);
+            unsafe { &*sched }.seam_kind(me, true, kind);
             IN_SIM.with(|s| s.set(false));
         }
     });
+}
+
+/// Function-entry seam: in the `fn-seam` build (nightly, `rustc_fnseam.sh`,
+/// `fnseam-rt`) every function entry in the library crates and in the code
+/// monomorphised from them calls this hook, which makes each of them a scheduling
+/// point while a caller thread is inside a library display of a run that has
+/// `alloc_seams` on.
+#[cfg(feature = "fn-seam")]
+pub fn fn_seam_hook() {
+    seam_from_library(2);
 }
 
 /// Runs simulator code with allocator seams suppressed.
@@ -134,6 +153,8 @@ struct SchedState {
     trace: Vec<u8>,
     seams: u64,
     alloc_seams: u64,
+    fn_seams: u64,
+    switches_at_fn_entry: u64,
     switches: u64,
     switches_inside_op: u64,
     switches_at_alloc: u64,
@@ -165,6 +186,8 @@ impl Sched {
                 trace: Vec::new(),
                 seams: 0,
                 alloc_seams: 0,
+                fn_seams: 0,
+                switches_at_fn_entry: 0,
                 switches: 0,
                 switches_inside_op: 0,
                 switches_at_alloc: 0,
@@ -228,10 +251,10 @@ impl Sched {
 
     /// A scheduling point reached by thread `me`.
     fn seam(&self, me: usize, inside_op: bool) {
-        in_sim(|| self.seam_kind(me, inside_op, false))
+        in_sim(|| self.seam_kind(me, inside_op, 0))
     }
 
-    fn seam_kind(&self, me: usize, inside_op: bool, at_alloc: bool) {
+    fn seam_kind(&self, me: usize, inside_op: bool, kind: u8) {
         if self.free {
             std::thread::yield_now();
             return;
@@ -243,8 +266,10 @@ impl Sched {
             return;
         }
         st.seams += 1;
-        if at_alloc {
-            st.alloc_seams += 1;
+        match kind {
+            1 => st.alloc_seams += 1,
+            2 => st.fn_seams += 1,
+            _ => {}
         }
         st.progress += 1;
         let next = self.choose(&mut st, Some(me)).unwrap();
@@ -253,8 +278,10 @@ impl Sched {
             if inside_op {
                 st.switches_inside_op += 1;
             }
-            if at_alloc {
-                st.switches_at_alloc += 1;
+            match kind {
+                1 => st.switches_at_alloc += 1,
+                2 => st.switches_at_fn_entry += 1,
+                _ => {}
             }
             st.parked_in_op[me] = inside_op;
             st.current = next;
@@ -317,7 +344,7 @@ impl SimSink<'_> {
     fn write_str_inner(&mut self, s: &str) -> fmt::Result {
         let k = self.writes;
         self.writes += 1;
-        self.sched.seam_kind(self.me, true, false);
+        self.sched.seam_kind(self.me, true, 0);
         if self.fault_fired == Some(FaultKind::Error) {
             return Err(fmt::Error); // a broken sink stays broken
         }
@@ -539,6 +566,8 @@ pub fn execute_mode(plan: &Plan, free: bool) -> RunResult {
     stats.switches_inside_op = st.switches_inside_op;
     stats.alloc_seams = st.alloc_seams;
     stats.switches_at_alloc = st.switches_at_alloc;
+    stats.fn_seams = st.fn_seams;
+    stats.switches_at_fn_entry = st.switches_at_fn_entry;
     stats.stalls = st.stalls;
     stats.trace_hash = crate::prng::fnv64(&st.trace);
     stats.nontrivial = stats.switches_inside_op > 0
